@@ -103,7 +103,7 @@ def streams(ctx):
             for (i, eco, s, v) in metas:
                 ex, cmpv = impl[i], impl[i + 1]
                 iv = "invalid" if cmpv == "invalid" else ex
-                if "PANIC" in (ex, cmpv) or "ABORT" in (ex, cmpv):
+                if ex.startswith("PANIC") or cmpv.startswith("PANIC") or "ABORT" in (ex, cmpv):
                     iv = "PANIC"
 
                 def check(o, eco=eco, s=s, v=v, iv=iv):
